@@ -42,6 +42,11 @@ def run(ctx):
     # exactly as received
     from . import C14
     ctx.do(C14.rule_version_in_scope, rule_id="C11.version-forwarding", only_modules=("stix2.datastore",))
+    # clauses decided by rules of sibling properties whose violation is a disagreement between the two stores as well
+    # (each was a genuine defect recorded under C11; reverting its repair must be reported by THIS check too)
+    from . import C12, C18
+    ctx.do(C18.rule_newest_of_filtered, "C11.newest")
+    ctx.do(C12.rule_optimiser, rule_id="C11.filesystem-pruning")
     from .pitfalls import rule_groupby_sorted, rule_single_use_iterators
     ctx.do(rule_groupby_sorted, "C11.iterator-pitfalls", ("stix2.datastore",))
     ctx.do(rule_single_use_iterators, "C11.iterator-pitfalls", ("stix2.datastore",))
